@@ -345,15 +345,17 @@ func (f *fragmentList) build(in *layers.IPv4) (*layers.IPv4, error) {
 
 // ipv4 is a struct to be used as a key.
 type ipv4 struct {
-	ip4 gopacket.Flow
-	id  uint16
+	ip4   gopacket.Flow
+	id    uint16
+	proto layers.IPProtocol // RFC 791: fragments belong together when source, destination, protocol and identification agree
 }
 
 // newIPv4 returns a new initialized IPv4 Flow
 func newIPv4(ip *layers.IPv4) ipv4 {
 	return ipv4{
-		ip4: ip.NetworkFlow(),
-		id:  ip.Id,
+		ip4:   ip.NetworkFlow(),
+		id:    ip.Id,
+		proto: ip.Protocol,
 	}
 }
 
